@@ -355,6 +355,8 @@ impl<'a> Peripheral<'a> {
                 // when it comes back.
                 log::warn!("Peripheral #{} stopped responding!", self.address);
                 self.state = PeripheralState::Offline;
+                // The peripheral must treat our next request as a new one, not as a retry.
+                self.fcb.reset();
                 Err((tx, Some(PeripheralEvent::Offline)))
             }
             PeripheralState::Offline => {
